@@ -169,6 +169,11 @@ entries (otherwise `ValueError`: `none`). -/
 def setRowsFrom1 (col : List K) (v : List K) : Option (List K) :=
   if v.length + 1 = col.length then some (col.take 1 ++ v) else none
 
+/-- `l[i] = v` for one column of a (rows, points) array (a non-negative row index out of range is NumPy's
+`IndexError`: `none`).  Used by the generated Bell-polynomial loop of `_transform_ode_from_derivs` (round 3). -/
+def listSet {α : Type} (l : List α) (i : Nat) (v : α) : Option (List α) :=
+  if i < l.length then some (l.set i v) else none
+
 /-- `m.dot(v)` for the `n × n` matrix `m` the code has just built: NumPy requires `len(v) = n`. -/
 def matDot (m : Mat K) (n : Nat) (v : List K) : Option (List K) :=
   if v.length = n then some (matVec m v) else none
